@@ -171,10 +171,28 @@ Theorem C12_gl_adapter_2d_separable : forall (table : Z -> rule Rops) (degree : 
   Cmult (integrate_GaussLegendre Rops table p a b degree) (integrate_GaussLegendre Rops table q c d degree).
 Proof. exact gl_adapter_2d_separable. Qed.
 
+(* 2-D adapter on a product of complex polynomials of degree <= d, from the two 1-D certificate bounds *)
+Theorem C12_gl_adapter_2d_exact : forall (table : Z -> rule Rops) (degree : Z) (d : nat) (eps : R),
+  (forall k, (k <= d)%nat -> Rabs (moment (table (gl_points degree)) k - leg_moment k) <= eps) ->
+  forall (a b c e : R) (cp cq : list C), (length cp <= S d)%nat -> (length cq <= S d)%nat ->
+  let Bp := eps * Rabs (tr_u a b) * scale_cmod cp (tr_M a b) in
+  let Bq := eps * Rabs (tr_u c e) * scale_cmod cq (tr_M c e) in
+  Cmod (Cminus (integrate2d_GaussLegendre Rops table (fun x y => Cmult (cpeval Rops cp x) (cpeval Rops cq y)) a b c e degree)
+               (Cmult (cpint Rops cp a b) (cpint Rops cq c e)))
+    <= Bp * (Cmod (cpint Rops cq c e) + Bq) + Cmod (cpint Rops cp a b) * Bq.
+Proof. exact gl_adapter_2d_exact. Qed.
+
 (* ---- adaptive Simpson *)
 Theorem C12_adaptive_cubic_exact : forall (cs : list C) (a b eps : R) d, a <= b -> (length cs <= 4)%nat ->
   simpson_adaptive Rops (cpeval Rops cs) a b eps d = cpint Rops cs a b.
 Proof. exact simpson_adaptive_cubic_exact. Qed.
+
+(* 2-D adaptive Simpson (nested) on a product of complex cubics: exact, hence equal to the product of the 1-D results *)
+Theorem C12_adaptive_2d_bicubic_exact : forall (cp cq : list C) (ax bx ay by_ eps : R) d,
+  ax <= bx -> ay <= by_ -> (length cp <= 4)%nat -> (length cq <= 4)%nat ->
+  simpson_adaptive_2d Rops (fun x y => Cmult (cpeval Rops cp x) (cpeval Rops cq y)) ax bx ay by_ eps d =
+  Cmult (cpint Rops cp ax bx) (cpint Rops cq ay by_).
+Proof. exact simpson_adaptive_2d_bicubic_exact. Qed.
 
 (* the value returned when a panel is accepted is exact up to degree 5 (pins the Richardson constant 15) *)
 Theorem C12_adaptive_richardson_quintic : forall (cs : list C) (a b : R), a <= b -> (length cs <= 6)%nat ->
@@ -265,7 +283,9 @@ Print Assumptions C12_certified_rule_exact.
 Print Assumptions C12_gl_adapter_exact.
 Print Assumptions C12_gl_adapter_linear.
 Print Assumptions C12_gl_adapter_2d_separable.
+Print Assumptions C12_gl_adapter_2d_exact.
 Print Assumptions C12_adaptive_cubic_exact.
+Print Assumptions C12_adaptive_2d_bicubic_exact.
 Print Assumptions C12_adaptive_richardson_quintic.
 Print Assumptions C12_adaptive_accepted_error.
 Print Assumptions C12_adaptive_step.
